@@ -239,6 +239,13 @@ where
             channel_mask,
         })
     }
+
+    fn update_ratio(&mut self, new_ratio: f64, ramp: bool) {
+        if !ramp {
+            self.resample_ratio = new_ratio;
+        }
+        self.target_ratio = new_ratio;
+    }
 }
 
 impl<T> Resampler<T> for FastFixedIn<T>
@@ -469,13 +476,10 @@ where
 
     fn set_resample_ratio(&mut self, new_ratio: f64, ramp: bool) -> ResampleResult<()> {
         trace!("Change resample ratio to {}", new_ratio);
-        if (new_ratio / self.resample_ratio_original >= 1.0 / self.max_relative_ratio)
-            && (new_ratio / self.resample_ratio_original <= self.max_relative_ratio)
+        if (new_ratio >= self.resample_ratio_original / self.max_relative_ratio)
+            && (new_ratio <= self.resample_ratio_original * self.max_relative_ratio)
         {
-            if !ramp {
-                self.resample_ratio = new_ratio;
-            }
-            self.target_ratio = new_ratio;
+            self.update_ratio(new_ratio, ramp);
             Ok(())
         } else {
             Err(ResampleError::RatioOutOfBounds {
@@ -488,7 +492,16 @@ where
 
     fn set_resample_ratio_relative(&mut self, rel_ratio: f64, ramp: bool) -> ResampleResult<()> {
         let new_ratio = self.resample_ratio_original * rel_ratio;
-        self.set_resample_ratio(new_ratio, ramp)
+        if (rel_ratio >= 1.0 / self.max_relative_ratio) && (rel_ratio <= self.max_relative_ratio) {
+            self.update_ratio(new_ratio, ramp);
+            Ok(())
+        } else {
+            Err(ResampleError::RatioOutOfBounds {
+                provided: new_ratio,
+                original: self.resample_ratio_original,
+                max_relative_ratio: self.max_relative_ratio,
+            })
+        }
     }
 
     fn reset(&mut self) {
@@ -549,6 +562,18 @@ where
             interpolation: interpolation_type,
             channel_mask,
         })
+    }
+
+    fn update_ratio(&mut self, new_ratio: f64, ramp: bool) {
+        if !ramp {
+            self.resample_ratio = new_ratio;
+        }
+        self.target_ratio = new_ratio;
+        self.needed_input_size = (self.last_index as f32
+            + self.chunk_size as f32
+                / (0.5 * self.resample_ratio as f32 + 0.5 * self.target_ratio as f32))
+            .ceil() as usize
+            + POLYNOMIAL_LEN_U;
     }
 }
 
@@ -767,18 +792,10 @@ where
 
     fn set_resample_ratio(&mut self, new_ratio: f64, ramp: bool) -> ResampleResult<()> {
         trace!("Change resample ratio to {}", new_ratio);
-        if (new_ratio / self.resample_ratio_original >= 1.0 / self.max_relative_ratio)
-            && (new_ratio / self.resample_ratio_original <= self.max_relative_ratio)
+        if (new_ratio >= self.resample_ratio_original / self.max_relative_ratio)
+            && (new_ratio <= self.resample_ratio_original * self.max_relative_ratio)
         {
-            if !ramp {
-                self.resample_ratio = new_ratio;
-            }
-            self.target_ratio = new_ratio;
-            self.needed_input_size = (self.last_index as f32
-                + self.chunk_size as f32
-                    / (0.5 * self.resample_ratio as f32 + 0.5 * self.target_ratio as f32))
-                .ceil() as usize
-                + POLYNOMIAL_LEN_U;
+            self.update_ratio(new_ratio, ramp);
             Ok(())
         } else {
             Err(ResampleError::RatioOutOfBounds {
@@ -791,7 +808,16 @@ where
 
     fn set_resample_ratio_relative(&mut self, rel_ratio: f64, ramp: bool) -> ResampleResult<()> {
         let new_ratio = self.resample_ratio_original * rel_ratio;
-        self.set_resample_ratio(new_ratio, ramp)
+        if (rel_ratio >= 1.0 / self.max_relative_ratio) && (rel_ratio <= self.max_relative_ratio) {
+            self.update_ratio(new_ratio, ramp);
+            Ok(())
+        } else {
+            Err(ResampleError::RatioOutOfBounds {
+                provided: new_ratio,
+                original: self.resample_ratio_original,
+                max_relative_ratio: self.max_relative_ratio,
+            })
+        }
     }
 
     fn reset(&mut self) {
